@@ -40,3 +40,112 @@ def canary_no_limit(u: U):
     out = u.call(f, p, u.bytes("data"))
     if out.ok and isinstance(p._tail, SBytes):
         u.check("C10.canary", blen(p._tail) <= 10, "false: partial lines up to the configured limit are kept")
+
+
+# ---------------------------------------------------------------------------------------------------------------
+# lax (response / trailer) header parsing: obsolete line folding
+
+
+@unit("C10", "hdr.folded_field_limit", functions=[f"{MOD}:HeadersParser.parse_headers"])
+def folded_field_limit(u: U):
+    """lenient HeadersParser.parse_headers (responses, non-debug): a field value continued over any number of folded lines
+    is held to max_field_size as a whole.  The first field of a block is generic (the outer loop carries nothing but the
+    header map from one field to the next), the folding loop is cut at an invariant over the collected pieces."""
+    from pyvc import Ite, is_sym, mk_int
+    from pyvc.values import SSeq
+
+    from aiohttp import http_exceptions as E
+
+    maxf = u.int("max_field_size", 0)
+    hp = u.obj("HeadersParser", {"max_field_size": maxf, "_lax": True}, {}, shared=False)
+    first_value = u.bytes("first_line_value")
+    n_lines = u.int("line_count", 2)
+    later = {}
+
+    class _Name:
+        """the field name of the first line: a plain token (its syntax is C01.hdr.*), only its shape matters here"""
+
+        def __len__(self):
+            return 6
+
+        def __getitem__(self, i):
+            return 88
+
+        def decode(self, *a):
+            return "X-Name"
+
+        def __add__(self, o):
+            return b"X-Name" + o if isinstance(o, bytes) else SBytes.of(b"X-Name") + o
+
+    class _First:
+        _pyvc_sym = True
+
+        def __bool__(self):
+            return True
+
+        def split(self, sep, maxsplit=-1):
+            assert sep == b":" and maxsplit == 1
+            return [_Name(), first_value]
+
+    class _Lines:
+        _pyvc_sym = True
+
+        def __getitem__(self, i):
+            if not is_sym(i) and i == 0:
+                return _First()
+            key = str(i.t) if is_sym(i) else i
+            if key not in later:
+                later[key] = u.bytes(f"line[{len(later) + 1}]")
+            return later[key]
+
+        def sym_len(self):
+            return n_lines
+
+        def __len__(self):
+            raise AssertionError("len() goes through sym_len")
+
+    FN = "http_parser:HeadersParser.parse_headers"
+    class _Map:
+        def __init__(self):
+            self.items = []
+
+        def add(self, k, v):
+            self.items.append((k, v))
+
+        def __contains__(self, k):
+            return False
+
+    f = u.load(MOD, "HeadersParser.parse_headers", globals={"CIMultiDict": _Map, "HeadersDictProxy": lambda h: h})
+
+    def total(x):
+        return x.total_len() if isinstance(x, SSeq) else sum((blen(e) for e in x), 0)
+
+    def count(x):
+        return x.length() if isinstance(x, SSeq) else len(x)
+
+    def inv(L):
+        pieces = L["bvalue_lst"]
+        items = [("folded_so_far_within_limit", Or(count(pieces) == 1, total(pieces) <= maxf)),
+                 ("at_least_one_piece", count(pieces) >= 1)]
+        if "header_length" in L:  # the running counter of the current text: it must describe the pieces collected so far
+            items.append(("counter_tracks_pieces", L["header_length"] == total(pieces)))
+        return items
+
+    def typed_pieces(nm):
+        s = SSeq.fresh(nm)
+        return s
+
+    u.loop(FN, 0, first_iteration=True)
+    u.loop(FN, 1, inv=inv, types={"bvalue_lst": typed_pieces, "line": lambda nm: SBytes.fresh(nm, register=False)})
+    out = u.call(f, hp, _Lines())
+    if not out.ok:
+        u.check("C10.escape.parse_headers_lax", isinstance(out.exc, E.HttpProcessingError),
+                f"only HTTP protocol errors escape the lenient header parser: {out.exc!r}")
+        return
+    L = u.last_locals.get(FN, {})
+    if "bvalue_lst" in L:
+        u.cover("C10.hdr.folded")
+        pieces = L["bvalue_lst"]
+        u.check("C10.limit.folded_field", Or(count(pieces) == 1, total(pieces) <= maxf),
+                "a field value folded over several lines is accepted only if all its pieces together are within "
+                "max_field_size (not each continuation line on its own)", witness={"pieces": count(pieces), "total": total(pieces)})
